@@ -593,6 +593,31 @@ def _use_tensor_valued_constants(nodes: Sequence[ir.Node]) -> None:
             new_node.attributes["value"] = ir.AttrTensor("value", ir.tensor(array))
 
 
+def _make_initializer_name_unique(
+    graph: ir.Graph, folded_value: ir.Value, new_initializer: ir.Value
+) -> None:
+    """Make room for the initializer that replaces `folded_value` in `graph`.
+
+    Sibling scopes may reuse value names: once the branches of two constant-condition If
+    nodes are inlined into the same graph, a value folded from the second branch can carry
+    the name of an initializer already folded from the first one. The folded value takes a
+    new name then (replace_node hands the name of the old value over to the new one); a
+    graph output keeps its name and the initializer registered earlier is renamed instead.
+    """
+    name = new_initializer.name
+    existing = graph.initializers.get(name)
+    if existing is None or existing is new_initializer:
+        return
+    counter = 1
+    while f"{name}_{counter}" in graph.initializers:
+        counter += 1
+    if folded_value.is_graph_output():
+        existing.name = f"{name}_{counter}"
+    else:
+        folded_value.name = f"{name}_{counter}"
+        new_initializer.name = f"{name}_{counter}"
+
+
 def _move_initializers_to_graph(src: ir.Graph, dst: ir.Graph) -> None:
     """Move all initializers from src graph to dst graph, ensuring name uniqueness."""
     counter: dict[str, int] = {}
@@ -1396,6 +1421,7 @@ class FoldConstantsPass(ir.passes.InPlacePass):
                 return None
             # Add the new initializer to the graph
             assert node.graph is not None
+            _make_initializer_name_unique(node.graph, node.outputs[0], new_initializer_value)
             node.graph.register_initializer(new_initializer_value)
             return Replacement([new_initializer_value], [])
         else:
